@@ -14,8 +14,17 @@ def _native(f):
     return f
 
 
-_F = {n: z3.Function('CU.' + n, ArrS, IntS, IntS) for n in
-      ('unit_length', 'version', 'debug_abbrev_offset', 'address_size', 'die_offset', 'format')}
+def _leaf(n):
+    return z3.Function('Dwarf_CU_header.' + n, ArrS, IntS, IntS)
+
+
+# the observable fields of the unit whose header starts at an offset: the leaves of the K1 layout of
+# Dwarf_CU_header (K2 ties the real construct tree to the 7.5.1 layout), the end of the header, and the
+# format announced by the first word (7.4)
+_F = {n: _leaf(n) for n in ('unit_length', 'version', 'debug_abbrev_offset', 'address_size')}
+_F['die_offset'] = z3.Function('end!Dwarf_CU_header', ArrS, IntS, IntS)
+_first = z3.Function('Dwarf_uint32', ArrS, IntS, IntS)
+_F['format'] = lambda arr, o: z3.If(_first(arr, o) == 0xFFFFFFFF, 64, 32)
 
 
 @_native
